@@ -210,7 +210,7 @@ def expected_len(p, op, la, lb, k):
     if op == 'reverse_pub':
         return k + 1
     if op == 'powmod':
-        return 1 if k == 0 else (None if k < 0 else (la if k == 1 or la == 0 else lb - 1))
+        return 1 if k == 0 else (0 if la == 0 and k > 0 else lb - 1)     # every n != 0 ends with a reduction modulo b
     if op == 'pow':
         return 1 if k == 0 else (k * (la - 1) + 1 if la else 0)
     return None
@@ -491,7 +491,7 @@ def known_class(p, a, b, op, k, want):
         return 'zero-polynomial'          # F-C38-3: division by the zero modulus
     if p == 2 and (op.endswith('_pub') or op == 'scale') and op not in ('call_pub', 'reverse_pub'):
         return 'gf2-public-operand'       # F-C38-8: secpoly(BinaryPolynomial) holds polynomial objects as coefficients
-    if p == 2 and (op in DIV_OPS or (op == 'powmod' and abs(k) >= 2) or (op == 'is_irreducible' and len(a) >= 3)):
+    if p == 2 and (op in DIV_OPS or (op == 'powmod' and k != 0) or (op == 'is_irreducible' and len(a) >= 3)):
         return 'gf2-division'             # F-C38-8: _div feeds lists to BinaryPolynomial._invert (int representation)
     if op == 'is_irreducible' and want == ('elt', 1) and len(a) - 1 >= 2 * (len(strip(a)) - 1):
         return 'padded-irreducible'       # F-C38-5: D//2 iterations with D the public bound
